@@ -323,10 +323,12 @@ func genEngine(p *params, emit func(string, bool)) {
 		genTimeouts(p, emit)
 	case "C13":
 		genPausing(p, emit)
+		genInserterPausing(p, emit)
 	case "C02":
 		genReturns(p, emit)
 		genFaults(p, emit, 0.25)
 		genStaleReads(p, emit)
+		genStaleLower(p, emit)
 	case "C16":
 		genReturns(p, emit)
 		genFaults(p, emit, 0.25)
@@ -740,6 +742,28 @@ func genStaleReads(p *params, emit func(string, bool)) {
 	}
 }
 
+// C02: a function runs for a run that has meanwhile moved to a LOWER-numbered status (a callback off the same status took it
+// there; the step consumer's first lookup was answered by a lagging replica, so the superseded announcement looked current):
+// the updater's re-read finds the run elsewhere and drops the function's result, whichever way the status numbers compare
+func genStaleLower(p *params, emit func(string, bool)) {
+	for _, prs := range []string{
+		"S:1:R,1,3:3:0:0:0 S:3:R,1,4:4:0:0:0 C:3:R,1,2:2 S:2:R,1,4:4:0:0:0",
+		"S:1:R,1,3:3:0:0:0 S:3:R,1,4:4:0:0:0 C:3:R,1,2:2",
+		"S:1:R,1,3:3:0:0:0 S:3:R,1,4:4:0:0:0 C:3:R,1,5:5 S:5:R,1,4:4:0:0:0",
+	} {
+		pr := mkProg("stale-lower", prs)
+		dest := "2"
+		if strings.Contains(prs, "C:3:R,1,5") {
+			dest = "5" // control: the callback moves the run to a HIGHER-numbered status
+		}
+		_ = dest
+		ops := pr.rounds(1)
+		ops = append(ops, "tr:1:0:4", "tr:2:0:7", "st:1/o", "st:1/s1.1.1", "st:1/s1.1.1", "st:1/o", "cb:1:3", "st:1/s3.1.1@LK.0.sr", "st:1/s3.1.1@LK.0.sr")
+		ops = append(ops, pr.rounds(4)...)
+		emit(scenario(pr, ops), true)
+	}
+}
+
 // C16: the first lookup of a STEP consumer is answered by a lagging replica (no deletion in these programs: what the delete
 // consumer does on a stale row is outside C16's histories): the announcement is newer than what the store returned, so no
 // function may run on that older version — it is retried until the store has caught up; versions keep growing by one
@@ -1011,6 +1035,29 @@ func genPausing(p *params, emit func(string, bool)) {
 				ops = append(ops, pr.rounds(3)...)
 				emit(scenario(pr, ops), n >= 2)
 			}
+		}
+	}
+}
+
+// the timeout INSERTER's error count: its TimeoutStore.Create fails k times in a row for one run (a fault before the effect at the
+// inserter's Create), under a per-timeout count n, a workflow default m, both, or neither — the timeout's own count decides, the
+// default only where none is set, and the run is paused by exactly that failure
+func genInserterPausing(p *params, emit func(string, bool)) {
+	for _, cfg := range [][2]int{{0, 0}, {3, 0}, {0, 2}, {4, 2}, {2, 5}, {1, 3}} {
+		pr := mkProg("ins-pause", fmt.Sprintf("S:1:R,1,2:2:0:0:0 T:2:1000:R,1,3:3:%d O:dpause=%d,retry=-1", cfg[0], cfg[1]))
+		for _, fails := range []int{1, 2, 3, 5, 6} {
+			ops := []string{"tr:1:0:4", "tr:2:0:7"}
+			ops = append(ops, "st:1/o", "st:1/s1.1.1", "st:1/s1.1.1", "st:1/o")
+			// (a step of a process runs up to its next blocking call: the fault is put on every step of the span; a step that
+			// does not reach Create leaves it unused)
+			ops = append(ops, "st:1/i2")
+			for k := 0; k < 3*fails; k++ {
+				ops = append(ops, "st:1/i2@TC.0.eb", adv(1))
+			}
+			ops = append(ops, pr.rounds(3)...)
+			ops = append(ops, "ct:1:1")
+			ops = append(ops, pr.rounds(3)...)
+			emit(scenario(pr, ops), fails >= 2)
 		}
 	}
 }
